@@ -36,7 +36,8 @@ where
         .await
         .map_err(|e| Error::ProcessSocksRequest("read ip", e))?;
     let _user_id = read_nul_terminated(reader, "read user id").await?;
-    let rhost = if ip >> 24 == 0 {
+    // SOCKS4a: DSTIP is `0.0.0.x` with nonzero `x`; anything else is a plain IPv4 address
+    let rhost = if ip >> 8 == 0 && ip != 0 {
         read_nul_terminated(reader, "read domain").await?
     } else {
         Ipv4Addr::from(ip).to_string().into()
